@@ -267,8 +267,7 @@ func runC10(c *Ctx) {
 						sort.Strings(got)
 					}
 				}
-			} else
-			if pairsOK {
+			} else if pairsOK {
 				for i := range fph.Edges {
 					wrapped := "?"
 					for _, l := range litsAt(fph.Block(), fph.Block().Preds[i]) {
